@@ -42,8 +42,14 @@ class _Canon(ast.NodeTransformer):
 
     def visit_BoolOp(self, node: ast.BoolOp):
         self.generic_visit(node)
-        # `and` / `or` of side-effect free tests: operand order is immaterial for the value
-        node.values = sorted(node.values, key=u)
+        # flatten (a or b) or c; `and` / `or` of side-effect free tests: operand order is immaterial for the value
+        flat = []
+        for v in node.values:
+            if isinstance(v, ast.BoolOp) and type(v.op) is type(node.op):
+                flat += v.values
+            else:
+                flat.append(v)
+        node.values = sorted(flat, key=u)
         return node
 
     def visit_UnaryOp(self, node: ast.UnaryOp):
